@@ -704,6 +704,8 @@ func ruleDecodeSibling(p *Prog, r *Report, names []string) {
 		}
 		// (2) the list store appends the child last: value is append(existing..., child)
 		okAppend := false
+		badAppend := ""
+		czs := p.canonFor(fn)
 		for _, mu := range stores {
 			mi, ok := mu.Value.(*ssa.MakeInterface)
 			if !ok {
@@ -716,6 +718,31 @@ func ruleDecodeSibling(p *Prog, r *Report, names []string) {
 			bi, ok := ap.Call.Value.(*ssa.Builtin)
 			if !ok || bi.Name() != "append" || !appendsExactlyOne(ap) {
 				continue
+			}
+			// every list store grows the entry found under the very key that is written — not a list remembered from an earlier
+			// sibling (state carried from one token to the next)
+			sameKey, carriedList := false, false
+			for v := range backwardSlice(fn, ap.Call.Args[0]) {
+				var lk *ssa.Lookup
+				if l2, ok := v.(*ssa.Lookup); ok {
+					lk = l2
+				}
+				if ex, ok := v.(*ssa.Extract); ok {
+					if l2, ok := ex.Tuple.(*ssa.Lookup); ok {
+						lk = l2
+					}
+				}
+				if lk != nil && lk.X == mu.Map && czs.of(lk.Index) == czs.of(mu.Key) {
+					sameKey = true
+				}
+				if ph, ok := v.(*ssa.Phi); ok && ph.Block() == hdr {
+					if _, isSl := ph.Type().Underlying().(*types.Slice); isSl || isEmptyIface(ph.Type()) {
+						carriedList = true
+					}
+				}
+			}
+			if !sameKey || carriedList {
+				badAppend = p.Pos(mu.Pos())
 			}
 			// base derives from the existing entry (lookup of the parent under the same key), appended element derives from the child
 			baseFromLookup := false
@@ -739,7 +766,9 @@ func ruleDecodeSibling(p *Prog, r *Report, names []string) {
 				okAppend = true
 			}
 		}
-		if okAppend {
+		if badAppend != "" {
+			r.Bad(rule, n, "repeated siblings appended in document order", badAppend, "the list stored at "+badAppend+" is not grown from the entry found under the key that is written (it comes from another lookup or from a list remembered from an earlier sibling): children end up under the wrong name or are lost")
+		} else if okAppend {
 			r.OK(rule, n, "repeated siblings appended in document order", p.Pos(rc.Pos()), "existing entry (list or singleton) first, the new child appended last")
 		} else {
 			r.Bad(rule, n, "repeated siblings appended in document order", p.Pos(rc.Pos()), "the list store is not append(existing entry..., new child)")
